@@ -88,8 +88,19 @@ def model_convert(srcs_cfgs):
     return out
 
 
+def analysable(src):
+    try:
+        ast.parse(src)
+        symtable.symtable(src, "<s>", "exec")
+        return True
+    except (SyntaxError, ValueError, RecursionError):
+        return False
+
+
 def compare(ol, srcs_cfgs):
-    """yields (src, cfg, agree: bool, detail)"""
+    """yields (src, cfg, agree: bool, detail); programs CPython's parser / symtable pass refuse are
+    outside the model's domain (the real entry point raises before `convert` is reached) and are skipped"""
+    srcs_cfgs = [(s, c) for s, c in srcs_cfgs if analysable(s)]
     models = model_convert(srcs_cfgs)
     for (src, cfg), m in zip(srcs_cfgs, models):
         r = real_convert(ol, src, cfg)
